@@ -1,4 +1,5 @@
 import PlushModel
+import PlushProofs.Lib.ParserLoopFlag
 /-!
   C08 — for loops visit every element once, in order; break/continue mean what they say.
   Theorems about `forItems` / `forRanger` / `evalStmts` (models of evalForExpression's three loops and of
@@ -125,5 +126,24 @@ theorem C08_parser_restores_loop_state (fuel : Nat) (s : PS) (r : Option Expr) (
   · rename_i x hx
     cases h
     rfl
+
+/-! ### The loop flag is scoped, for every input (proof in `PlushProofs/Lib/ParserLoopFlag.lean`) -/
+
+/-- `break` / `continue` ARE ACCEPTED ANYWHERE INSIDE A LOOP BODY, HOWEVER NESTED — parser side. Whatever a statement
+    contains (nested loops, function literals, blocks, constructs that fail half-way), the parser comes back from
+    it with the `inForBlock` flag unchanged; so every statement of a loop body is parsed with the flag set, at
+    any statement position. -/
+theorem C08_statement_keeps_loop_flag (fuel : Nat) (s s' : PS) (r : Option Stmt)
+    (h : P.parseStatement fuel s = .ok (r, s')) : s'.inFor = s.inFor :=
+  (P.allFor fuel).stmt s r s' h
+
+theorem C08_block_keeps_loop_flag (fuel : Nat) (acc : List Stmt) (s s' : PS) (r : List Stmt)
+    (h : P.blockLoop fuel acc s = .ok (r, s')) : s'.inFor = s.inFor :=
+  (P.allFor fuel).blockLoop s acc r s' h
+
+/-- … and an expression (where `for` and `fn` literals occur) leaves it unchanged too -/
+theorem C08_expression_keeps_loop_flag (fuel prec : Nat) (s s' : PS) (r : Option Expr)
+    (h : P.parseExpression fuel prec s = .ok (r, s')) : s'.inFor = s.inFor :=
+  (P.allFor fuel).expr s prec r s' h
 
 end Plush
